@@ -1,6 +1,9 @@
 package props
 
 import (
+	"go/token"
+	"go/types"
+
 	"mrocheck/an"
 
 	"golang.org/x/tools/go/ssa"
@@ -75,4 +78,72 @@ func fnPkg(f *ssa.Function) *ssa.Package {
 		return o.Pkg
 	}
 	return nil
+}
+
+// S8: a pipestance whose lock could not be taken is not handed back.  Callers release whatever
+// pipestance an attach attempt returns when a later step fails (`pipestance.Unlock()` on the error
+// paths of reattachToPipestance); Unlock removes the lock file unconditionally.  If the function
+// that tries to take the lock returned the pipestance together with the "already locked" error,
+// such a release would delete the lock of the live mrp that owns the pipestance, and the next
+// attach attempt would succeed while the owner is still running.
+// Rule: in every function of package core that calls (*Pipestance).Lock and has a *Pipestance
+// result, each return on the error edge of Lock yields a nil pipestance.
+func ruleS8(c *an.Ctx) {
+	p := c.P
+	lock := p.Func(pkgCore, "(*Pipestance).Lock")
+	if lock == nil {
+		c.Info("S8", "anchor((*Pipestance).Lock)", 0, "not found: not decided")
+		return
+	}
+	isPsPtr := func(t types.Type) bool {
+		pt, ok := t.(*types.Pointer)
+		if !ok {
+			return false
+		}
+		n, ok := pt.Elem().(*types.Named)
+		return ok && n.Obj().Name() == "Pipestance"
+	}
+	n := 0
+	for _, fn := range coreFns(c) {
+		res := fn.Signature.Results()
+		idx := -1
+		for i := 0; i < res.Len(); i++ {
+			if isPsPtr(res.At(i).Type()) {
+				idx = i
+			}
+		}
+		if idx < 0 {
+			continue
+		}
+		for _, cs := range callsTo(fn, lock) {
+			call, ok := cs.(*ssa.Call)
+			if !ok {
+				continue
+			}
+			n++
+			// returns reachable only through the edge `Lock() != nil`
+			okAll, where := true, ""
+			an.Instrs(fn, func(in ssa.Instruction) {
+				ret, isRet := in.(*ssa.Return)
+				if !isRet || idx >= len(ret.Results) {
+					return
+				}
+				if !an.Reachable(fn, nil, func(x ssa.Instruction) bool { return x == in }) {
+					return // the synthetic return of the recover block
+				}
+				failed, _ := an.GuardedBy(ret, func(r an.Rel) bool {
+					return r.Op == token.NEQ && r.X == ssa.Value(call) && an.IsNil(r.Y)
+				})
+				if !failed {
+					return
+				}
+				if !an.IsNil(an.Strip(an.RetVal(ret, idx))) {
+					okAll, where = false, c.P.Pos(ret.Pos())
+				}
+			})
+			c.Check("S8", "unlocked-pipestance-not-returned@"+an.FnName(fn), call.Pos(), okAll,
+				"on the path where Pipestance.Lock() failed (somebody else holds the lock) the function still returns the pipestance ("+where+"): callers unlock the pipestance they were given when a later step fails, which removes the lock file of the live owner")
+		}
+	}
+	c.Floor("S8", "lock attempts in functions that return a pipestance", n, 1)
 }
